@@ -76,7 +76,7 @@ def workload(ctx):
     from xfab import sg as sgmod
     rng = ctx.rng(1)
     names = sorted(sgmod.sgdic)
-    reps = ctx.n(1, 3)
+    reps = ctx.n(1, 10)
     idx = 0
     for rep in range(reps):
         for key in names:
@@ -86,7 +86,7 @@ def workload(ctx):
                     idx += 1
                     continue
                 if ctx.mine(idx):
-                    yield "covariance", {"key": key, "kind": kind, "s": s, "nh": ctx.n(2, 8)}
+                    yield "covariance", {"key": key, "kind": kind, "s": s, "nh": ctx.n(2, 10)}
                 idx += 1
 
 
